@@ -21,6 +21,9 @@ func ParseIPAddr(s string) (IPAddr, error) {
 	// We disallow IPv4-mapped IPv6 addresses in dotted notation because Cedar does.
 	if strings.Count(s, ":") >= 2 && strings.Count(s, ".") >= 2 {
 		return IPAddr{}, fmt.Errorf("%w: cannot parse IPv4 addresses embedded in IPv6 addresses", errIP)
+	} else if strings.Contains(s, "%") {
+		// netip accepts (and ParsePrefix strips) an IPv6 zone; Cedar addresses have none
+		return IPAddr{}, fmt.Errorf("%w: IPv6 zones are not allowed", errIP)
 	} else if net, err := netip.ParsePrefix(s); err == nil {
 		return IPAddr(net), nil
 	} else if addr, err := netip.ParseAddr(s); err == nil {
